@@ -40,3 +40,11 @@ pub fn validate_peers(peers: &[Peer]) -> Result<(), String> {
 pub fn strategy_from_options(options: HashMap<String, String>) -> Result<Strategy, String> {
     strategy_from_string_map(options).map_err(|e| e.to_string())
 }
+
+/// `map_string_to_cql_type` on a `type` string of a `system_schema` row: `Ok` = the `Debug` text of
+/// the parsed type, `Err` = the error's display text.
+pub fn parse_cql_type_string(typ: &str) -> Result<String, String> {
+    map_string_to_cql_type(typ)
+        .map(|t| format!("{t:?}"))
+        .map_err(|e| e.to_string())
+}
